@@ -269,7 +269,7 @@ func (v *Verifier) directEffectsX(fv *FuncVC, fn *ssa.Function, bodyOnly bool) *
 				if external {
 					continue
 				}
-				if _, ok := x.Map.(*ssa.MakeMap); ok {
+				if freshMap(x.Map, fn) {
 					continue
 				}
 				mt := x.Map.Type().Underlying().(*types.Map)
@@ -1079,6 +1079,57 @@ func freshSliceIn(v ssa.Value, li *loopInfo, seen map[ssa.Value]bool) bool {
 		if _, ok := x.Type().Underlying().(*types.Slice); ok {
 			return li.blocks[x.Block()]
 		}
+	}
+	return false
+}
+
+// freshMap: the map object was created in this function (so updating it is invisible to the caller
+// until it is published): a MakeMap, or the load of a field of an object allocated here into which
+// only maps made here are stored.
+func freshMap(v ssa.Value, fn *ssa.Function) bool {
+	switch x := v.(type) {
+	case *ssa.MakeMap:
+		return true
+	case *ssa.UnOp:
+		fa, ok := x.X.(*ssa.FieldAddr)
+		if !ok || !isLocalFresh(fa) {
+			// a local variable cell
+			if a, ok := x.X.(*ssa.Alloc); ok && a.Referrers() != nil {
+				n := 0
+				for _, ref := range *a.Referrers() {
+					if st, ok := ref.(*ssa.Store); ok && st.Addr == a {
+						n++
+						if _, isMM := st.Val.(*ssa.MakeMap); !isMM {
+							return false
+						}
+					}
+				}
+				return n > 0
+			}
+			return false
+		}
+		// every store in fn to this field of a fresh object stores a MakeMap
+		n := 0
+		for _, b := range fn.Blocks {
+			for _, in := range b.Instrs {
+				st, ok := in.(*ssa.Store)
+				if !ok {
+					continue
+				}
+				fa2, ok := st.Addr.(*ssa.FieldAddr)
+				if !ok || fa2.Field != fa.Field || !types.Identical(fa2.X.Type(), fa.X.Type()) {
+					continue
+				}
+				if rootOfAddr(fa2) != rootOfAddr(fa) {
+					continue
+				}
+				n++
+				if _, isMM := st.Val.(*ssa.MakeMap); !isMM {
+					return false
+				}
+			}
+		}
+		return n > 0
 	}
 	return false
 }
